@@ -77,7 +77,8 @@ def accessors(W, cfg):
                           'C02:shell-volume', 'shell %d' % i)
 
     if 'log_z' in which:
-        ok, lz = call(W, 'C02:log_z-no-raise', lambda: S.log_z)
+        ok, lz = exp_guarded(W, 'C02:log_z-no-raise', lambda: S.log_z,
+                             'log_z')
         if ok:
             if not allw:
                 W.require(lz is None, 'C02:log_z', 'no samples -> None')
@@ -88,8 +89,8 @@ def accessors(W, cfg):
                               'exp(log_z) == sum l_ij V_i / n_i')
 
     if 'weights' in which and allw and not all_inf:
-        ok, post = call(W, 'C02:posterior-no-raise',
-                        lambda: S.posterior())
+        ok, post = exp_guarded(W, 'C02:posterior-no-raise',
+                               lambda: S.posterior(), 'posterior')
         if ok:
             pts, log_w, log_l = post
             good = len(log_w) == len(allw) == len(log_l) == len(pts)
@@ -126,6 +127,8 @@ def accessors(W, cfg):
                               'Kish effective sample size of the weights')
 
     if 'eta' in which and allw and not all_inf:
+        # (no range obligation here: the bound on eta's exponent needs
+        # logsumexp monotonicity, which the main pool does not have)
         ok, eta = call(W, 'C02:eta-no-raise', lambda: S.eta)
         if ok:
             # eta = (sum_i Z_i)^2 / (sum_i Z_i sqrt(n_i / neff_i))^2
